@@ -189,3 +189,67 @@ class Internal:
 
     def calls(self, name):
         return [ev for ev in self.evs if ev.callee == name]
+
+
+def lowering_shifts(ctx, crate, clause="lower-to-requested-depth"):
+    """N: when the walk starts deeper than the requested depth (cones / ellipses smaller than a cell),
+    the candidate cells found at the start depth are brought to the requested depth by
+    `h >> 2 (start_depth - depth)`: the closure that does it for the cone (the one `h_and_shs_to_lower_h`
+    returns) is run on a symbolic cell number with their captured values,
+    and the result is read at (start_depth, depth) = (7, 4), (29, 0), (5, 5)."""
+    from sym import State
+    from rules.common import feval, param
+    L = "nested::Layer::"
+    S = ('deref', param("self"))
+    depth_f = ('fld', S, crate.field_index("nested::Layer", "depth"))
+    cases = []
+    # (parent, how to find the closure)
+    for parent in (L + "h_and_shs_to_lower_h",):      # (the `map` of the small-ellipse branch subtracts through `Sub<&u8>`, an opaque call: not read)
+        pb = crate.body(parent)
+        if pb is None: continue
+        e = Engine(crate); clos = []
+        def vh(v, loc, facts, _c=clos, _p=parent):
+            if v[0] == 'agg' and isinstance(v[1], str) and v[1].startswith('closure:' + _p + '::{closure'): _c.append(v)
+        e.value_hook = vh
+        e.run(parent); ctx.functions |= e.visited_fns
+        seen = set()
+        for clo in clos:
+            path = clo[1][len('closure:'):]
+            if path in seen: continue
+            seen.add(path)
+            cb = crate.body(path)
+            if cb is None or cb.arg_count != 2: continue
+            e2 = Engine(crate); st = State()
+            if cb.local_ty(1)["k"] == "ref":
+                st.heap[('tmp', 'env')] = clo; a0 = ('ref_t', ('tmp', 'env'))
+            else: a0 = clo
+            arg = ('p', 'cell')
+            r = e2.run_body(cb, [a0, arg], st, fk=((path, -1),), stack=(path,))
+            if not r.returns: continue
+            t = r.ret
+            if not (t[0] == 'op' and t[1] in ('shr', 'shl') and t[2] == 'u64'): continue          # not a lowering closure
+            cases.append((parent, path, t, e2, arg))
+    n = 0
+    for parent, path, t, e2, arg in cases:
+        leaves = {x for x in ([arg, ('fld', arg, 0)]) }
+        # the deeper depth is the parameter / local of the parent captured by the closure: any leaf that is not the cell, the layer depth or a constant
+        deep = set()
+        def scan(x, d=0):
+            if d > 12 or not isinstance(x, tuple): return
+            if x in (arg, ('fld', arg, 0), depth_f) or x[0] == 'c': return
+            if x[0] in ('op', 'un', 'cast'):
+                for y in x[3:]: scan(y, d + 1)
+                return
+            if x[0] == 'deref' and x[1] == depth_f: return
+            deep.add(x)
+        scan(t[4])
+        ok = len(deep) == 1 and t[1] == 'shr' and t[3] in (arg, ('fld', arg, 0))
+        if ok:
+            D = next(iter(deep))
+            for sd, dd in ((7, 4), (29, 0), (5, 5)):
+                hv = 0x3a5f17c2b >> 0
+                env = {arg: hv, ('fld', arg, 0): hv, D: sd, depth_f: dd, ('deref', depth_f): dd}
+                if feval(t, env, e2) != (hv >> (2 * (sd - dd))): ok = False
+        n += 1
+        ctx.report(clause, "%s:h>>2(start-depth)" % path.replace("nested::Layer::", ""), ok, "h >> 2 (start_depth - depth)" if ok else "the closure computes %s" % show(t)[:80], at=crate.body(path).span, kind="N")
+    ctx.floor("lowering-closures", n, 1)
